@@ -24,10 +24,11 @@ CLAIMED = {
          "Lean 4 proof (Thomas soundness, pivot positivity by induction, field algebra) + exact-rational correspondence"),
  "C03": ("Kernel-checked: the returned slopes satisfy the selected condition at each end (C03_conditions: S'=v, S''=v, continuous third "
          "derivative for NotAKnot incl. the repaired right row; C03_parabola) and are the only slopes whose piecewise cubic is C2 and meets "
-         "the end conditions (C03_unique via thomas_unique, C03_unique_values); C03_defect_witness machine-checks that the pre-repair row is "
+         "the end conditions (C03_unique via thomas_unique, C03_unique_values); Periodic: the condensed solve returns slopes satisfying the cyclic C2 system with "
+         "k_0 = k_n-1 (C03_periodic, C03_periodic3; closing denominator proved > 0); C03_defect_witness machine-checks that the pre-repair row is "
          "not the NotAKnot condition. Exact end-condition residuals on the implementation and comparison with an independent exact spline "
          "(Gaussian elimination on the conditions) for all 25 end pairs, Periodic, per-lane assignments.", "§5 C03",
-         "single-lane theorems (lanes via C08); periodic by oracle + correspondence", "Lean 4 proof (system <-> conditions equivalence, uniqueness) + exact oracles"),
+         "single-lane theorems (lanes via C08); periodic uniqueness by oracle + correspondence only", "Lean 4 proof (system <-> conditions equivalence, uniqueness, periodic condensation) + exact oracles"),
  "C04": ("Theorems C04_struct, C04_blend, C04_node, C04_gridline, C04_transpose for all grids, axes, lanes and in-grid queries; "
          "exact correspondence and blend oracle at Q, f64 runs within the composed rounding bound, transposition metamorphic test.",
          "§5 C04", "rounding as C01 (three nested calc_frac)", "Lean 4 proof (field identities, bracket uniqueness) + exact-rational correspondence"),
@@ -83,12 +84,13 @@ CLAIMED = {
          "view unchanged). Runs with poisoned windows and every wrong-shape family; D3 witnesses in the corpus.", "§5 C14",
          "real-memory frame property rests on safe Rust/ndarray; exercised by poisoned windows", "Lean 4 proof (view decomposition, write/read lemmas) + poisoned-buffer runs"),
  "C15": ("Kernel-checked: Linear — scale data, superposition, any strictly increasing axis relabelling commuting with calc_frac, instantiated "
-         "to scaling by c>0 and shifting; Bilinear — scale data; spline — homogeneity of the tridiagonal solve in its right-hand sides; "
+         "to scaling by c>0 and shifting; Bilinear — scale data; spline end to end for every non-periodic boundary pair — data x c (C15_spline_scale_data), shift (C15_spline_shift), "
+         "axis x c>0 with converted boundary values (C15_spline_scale_axis, by uniqueness), solver additivity (fwd_add/back_add); "
          "bit-for-bit half C15_hom_linear_data for ARBITRARY scalar operations. Metamorphic pairs on the real code: exact at Q for every "
          "strategy and boundary configuration (data x c, axis x c with converted boundary values, shifts, superposition), bit-for-bit at "
          "f64 for powers of two, negation and dyadic shifts.", "§5 C15",
-         "end-to-end spline unit/linearity statements are checked exactly by the metamorphic runs, not yet all stated as theorems (see PARTIAL in evidence)",
-         "Lean 4 proof (Linear/Bilinear, solver homogeneity) + exact metamorphic runs"),
+         "spline superposition through the row assembly and the Periodic scalings are checked exactly by the metamorphic runs, not stated as theorems (see PARTIAL in evidence)",
+         "Lean 4 proof (Linear/Bilinear; spline scale/shift/axis-scale end to end) + exact metamorphic runs"),
  "C16": ("Kernel-checked: C16_linear, C16_bilinear (every query, in range or extrapolated), C16_spline (a cubic meeting the selected end "
          "conditions is reproduced: solver returns p'(x_i) by uniqueness, Hermite form of a cubic is the cubic), C16_notAKnot (n>=4), "
          "C16_natural_line. Exact reproduction checked at Q for random dyadic polynomials, all spacings, extrapolated queries, lanes with "
